@@ -27,9 +27,8 @@ namespace Witverif.Props.C04Backends
 open Witverif.Scalar Witverif.Scalar.Spec Witverif.Generated
 set_option maxRecDepth 100000
 
-/-- lists whose lowering conversion sign-extends where the canonical ABI zero-extends (DESIGN §9 F3), and the
-C# `PToI32` list (ill-typed) -/
-def signExtending : List String := ["rust_I32ToI64_s32_s64", "rust_I32ToI64_u32_f64", "c_I32ToI64_s32_s64", "c_F32ToI64_f32_s64", "c_I32ToI64_u32_f64", "c_F32ToI64_f32_f64", "cpp_I32ToI64_s32_s64", "cpp_F32ToI64_f32_s64", "cpp_I32ToI64_u32_f64", "cpp_F32ToI64_f32_f64", "csharp_I32ToI64_s32_s64", "csharp_F32ToI64_f32_s64", "csharp_I32ToI64_u32_f64", "csharp_F32ToI64_f32_f64", "go_I32ToI64_s32_s64", "go_I32ToI64_u32_f64", "moonbit_I32ToI64_s32_s64", "moonbit_F32ToI64_f32_s64", "moonbit_I32ToI64_u32_f64", "moonbit_F32ToI64_f32_f64", "csharp_PToI32_s32_string"]
+/-- lists whose lowering conversion sign-extends where the canonical ABI zero-extends (DESIGN §9 F3) -/
+def signExtending : List String := ["rust_I32ToI64_s32_s64", "rust_I32ToI64_u32_f64", "c_I32ToI64_s32_s64", "c_F32ToI64_f32_s64", "c_I32ToI64_u32_f64", "c_F32ToI64_f32_f64", "cpp_I32ToI64_s32_s64", "cpp_F32ToI64_f32_s64", "cpp_I32ToI64_u32_f64", "cpp_F32ToI64_f32_f64", "csharp_I32ToI64_s32_s64", "csharp_F32ToI64_f32_s64", "csharp_I32ToI64_u32_f64", "csharp_F32ToI64_f32_f64", "go_I32ToI64_s32_s64", "go_I32ToI64_u32_f64", "moonbit_I32ToI64_s32_s64", "moonbit_F32ToI64_f32_s64", "moonbit_I32ToI64_u32_f64", "moonbit_F32ToI64_f32_f64"]
 
 theorem table_shape : CastExprs.table.map (·.1) = ["rust_F32ToI32_f32_s32", "rust_I32ToF32_f32_s32", "rust_F64ToI64_f64_s64", "rust_I64ToF64_f64_s64", "rust_I32ToI64_s32_s64", "rust_I64ToI32_s32_s64", "rust_F32ToI64_f32_s64", "rust_I64ToF32_f32_s64", "rust_None_s32_f32", "rust_I32ToI64_u32_f64", "rust_I64ToI32_u32_f64", "rust_F32ToI64_f32_f64", "rust_I64ToF32_f32_f64", "rust_F64ToI64_f64_f32", "rust_I64ToF64_f64_f32", "rust_I64ToP64_s64_string", "rust_P64ToI64_s64_string", "rust_I32ToP_s32_string", "rust_PToI32_s32_string", "rust_F32ToI32_I32ToP_f32_string", "rust_PToI32_I32ToF32_f32_string", "rust_F64ToI64_I64ToP64_f64_string", "rust_P64ToI64_I64ToF64_f64_string", "c_F32ToI32_f32_s32", "c_I32ToF32_f32_s32", "c_F64ToI64_f64_s64", "c_I64ToF64_f64_s64", "c_I32ToI64_s32_s64", "c_I64ToI32_s32_s64", "c_F32ToI64_f32_s64", "c_I64ToF32_f32_s64", "c_None_s32_f32", "c_I32ToI64_u32_f64", "c_I64ToI32_u32_f64", "c_F32ToI64_f32_f64", "c_I64ToF32_f32_f64", "c_F64ToI64_f64_f32", "c_I64ToF64_f64_f32", "c_I64ToP64_s64_string", "c_P64ToI64_s64_string", "c_I32ToP_s32_string", "c_PToI32_s32_string", "c_F32ToI32_I32ToP_f32_string", "c_PToI32_I32ToF32_f32_string", "c_F64ToI64_I64ToP64_f64_string", "c_P64ToI64_I64ToF64_f64_string", "cpp_F32ToI32_f32_s32", "cpp_I32ToF32_f32_s32", "cpp_F64ToI64_f64_s64", "cpp_I64ToF64_f64_s64", "cpp_I32ToI64_s32_s64", "cpp_I64ToI32_s32_s64", "cpp_F32ToI64_f32_s64", "cpp_I64ToF32_f32_s64", "cpp_None_s32_f32", "cpp_I32ToI64_u32_f64", "cpp_I64ToI32_u32_f64", "cpp_F32ToI64_f32_f64", "cpp_I64ToF32_f32_f64", "cpp_F64ToI64_f64_f32", "cpp_I64ToF64_f64_f32", "cpp_I64ToP64_s64_string", "cpp_P64ToI64_s64_string", "cpp_I32ToP_s32_string", "cpp_PToI32_s32_string", "cpp_F32ToI32_I32ToP_f32_string", "cpp_PToI32_I32ToF32_f32_string", "cpp_F64ToI64_I64ToP64_f64_string", "cpp_P64ToI64_I64ToF64_f64_string", "csharp_F32ToI32_f32_s32", "csharp_I32ToF32_f32_s32", "csharp_F64ToI64_f64_s64", "csharp_I64ToF64_f64_s64", "csharp_I32ToI64_s32_s64", "csharp_I64ToI32_s32_s64", "csharp_F32ToI64_f32_s64", "csharp_I64ToF32_f32_s64", "csharp_None_s32_f32", "csharp_I32ToI64_u32_f64", "csharp_I64ToI32_u32_f64", "csharp_F32ToI64_f32_f64", "csharp_I64ToF32_f32_f64", "csharp_F64ToI64_f64_f32", "csharp_I64ToF64_f64_f32", "csharp_I64ToP64_s64_string", "csharp_P64ToI64_s64_string", "csharp_I32ToP_s32_string", "csharp_PToI32_s32_string", "csharp_F32ToI32_I32ToP_f32_string", "csharp_PToI32_I32ToF32_f32_string", "csharp_F64ToI64_I64ToP64_f64_string", "csharp_P64ToI64_I64ToF64_f64_string", "go_F32ToI32_f32_s32", "go_I32ToF32_f32_s32", "go_F64ToI64_f64_s64", "go_I64ToF64_f64_s64", "go_I32ToI64_s32_s64", "go_I64ToI32_s32_s64", "go_F32ToI64_f32_s64", "go_I64ToF32_f32_s64", "go_None_s32_f32", "go_I32ToI64_u32_f64", "go_I64ToI32_u32_f64", "go_F32ToI64_f32_f64", "go_I64ToF32_f32_f64", "go_F64ToI64_f64_f32", "go_I64ToF64_f64_f32", "go_I64ToP64_s64_string", "go_P64ToI64_s64_string", "go_I32ToP_s32_string", "go_PToI32_s32_string", "go_F32ToI32_I32ToP_f32_string", "go_PToI32_I32ToF32_f32_string", "go_F64ToI64_I64ToP64_f64_string", "go_P64ToI64_I64ToF64_f64_string", "moonbit_F32ToI32_f32_s32", "moonbit_I32ToF32_f32_s32", "moonbit_F64ToI64_f64_s64", "moonbit_I64ToF64_f64_s64", "moonbit_I32ToI64_s32_s64", "moonbit_I64ToI32_s32_s64", "moonbit_F32ToI64_f32_s64", "moonbit_I64ToF32_f32_s64", "moonbit_None_s32_f32", "moonbit_I32ToI64_u32_f64", "moonbit_I64ToI32_u32_f64", "moonbit_F32ToI64_f32_f64", "moonbit_I64ToF32_f32_f64", "moonbit_F64ToI64_f64_f32", "moonbit_I64ToF64_f64_f32", "moonbit_I64ToP64_s64_string", "moonbit_P64ToI64_s64_string", "moonbit_I32ToP_s32_string", "moonbit_PToI32_s32_string", "moonbit_F32ToI32_I32ToP_f32_string", "moonbit_PToI32_I32ToF32_f32_string", "moonbit_F64ToI64_I64ToP64_f64_string", "moonbit_P64ToI64_I64ToF64_f64_string", "d_F32ToI32_f32_s32", "d_I32ToF32_f32_s32", "d_F64ToI64_f64_s64", "d_I64ToF64_f64_s64", "d_I32ToI64_s32_s64", "d_I64ToI32_s32_s64", "d_F32ToI64_f32_s64", "d_I64ToF32_f32_s64", "d_None_s32_f32", "d_I32ToI64_u32_f64", "d_I64ToI32_u32_f64", "d_F32ToI64_f32_f64", "d_I64ToF32_f32_f64", "d_F64ToI64_f64_f32", "d_I64ToF64_f64_f32", "d_I64ToP64_s64_string", "d_P64ToI64_s64_string", "d_I32ToP_s32_string", "d_PToI32_s32_string", "d_F32ToI32_I32ToP_f32_string", "d_PToI32_I32ToF32_f32_string", "d_F64ToI64_I64ToP64_f64_string", "d_P64ToI64_I64ToF64_f64_string"] := by
   rfl
@@ -128,7 +127,7 @@ theorem all_is_spec : ∀ p ∈ CastExprs.table, p.1 ∉ signExtending → ∀ e
     fun _ => CSharp.csharp_I64ToP64_s64_string_is_spec,
     fun _ => CSharp.csharp_P64ToI64_s64_string_is_spec,
     fun _ => CSharp.csharp_I32ToP_s32_string_is_spec,
-    fun h => absurd (by decide) h,
+    fun _ => CSharp.csharp_PToI32_s32_string_is_spec,
     fun _ => CSharp.csharp_F32ToI32_I32ToP_f32_string_is_spec,
     fun _ => CSharp.csharp_PToI32_I32ToF32_f32_string_is_spec,
     fun _ => CSharp.csharp_F64ToI64_I64ToP64_f64_string_is_spec,
